@@ -433,3 +433,103 @@ def derives(func_node, expr: ast.AST, at: Optional[int] = None, rd: Optional[Rea
         pnode = getattr(pnode, "parent", None)
     visit(expr, at, bound0)
     return D
+
+
+# ---------------------------------------------------------------------------------
+# single-definition locals: rules must not depend on how a local is called or on whether an expression
+# was first stored in a temporary
+# ---------------------------------------------------------------------------------
+
+_single_cache: Dict[int, Dict[str, ast.AST]] = {}
+
+
+def single_defs(func_node) -> Dict[str, ast.AST]:
+    """locals of the function that are bound exactly once, by a plain `name = expr` (flow-insensitive, so the
+    binding is the only value the name can have wherever it is read)"""
+    k = id(func_node)
+    r = _single_cache.get(k)
+    if r is not None and r[0] is func_node:
+        return r[1]
+    from .loader import walk_no_nested
+    count: Dict[str, int] = {}
+    val: Dict[str, ast.AST] = {}
+    a = getattr(func_node, "args", None)
+    if a is not None:
+        for p in a.args + a.kwonlyargs + a.posonlyargs + ([a.vararg] if a.vararg else []) + ([a.kwarg] if a.kwarg else []):
+            count[p.arg] = 2
+    for n in walk_no_nested(func_node):
+        if isinstance(n, ast.Name) and isinstance(n.ctx, (ast.Store, ast.Del)):
+            count[n.id] = count.get(n.id, 0) + 1
+        if isinstance(n, ast.Assign) and len(n.targets) == 1 and isinstance(n.targets[0], ast.Name):
+            val[n.targets[0].id] = n.value
+        if isinstance(n, (ast.Global, ast.Nonlocal)):
+            for x in n.names:
+                count[x] = 2
+    # comprehension / lambda targets live in their own scope but shadow: be conservative
+    for n in ast.walk(func_node):
+        if isinstance(n, ast.comprehension):
+            for t in ast.walk(n.target):
+                if isinstance(t, ast.Name):
+                    count[t.id] = count.get(t.id, 0) + 2
+    out = {k2: v for k2, v in val.items() if count.get(k2) == 1}
+    _single_cache[k] = (func_node, out)
+    return out
+
+
+def resolve_local(func_node, expr, depth: int = 6, at: Optional[int] = None):
+    """follow `name` -> its only definition while the expression is a local with one (reaching) plain definition.
+    Flow-insensitive for single-definition locals; with reaching definitions (at the statement that contains the
+    expression) for re-used temporaries."""
+    sd = single_defs(func_node)
+    rd = None
+    while depth > 0 and isinstance(expr, ast.Name):
+        if expr.id in sd:
+            expr = sd[expr.id]
+            depth -= 1
+            continue
+        try:
+            rd = rd or rd_of(func_node)
+            where = at
+            if where is None:
+                ids = rd.cfg.node_of_expr(expr)
+                where = ids[0] if ids else None
+            if where is None:
+                break
+            ds = [d for d in rd.reaching(expr.id, where) if not d.weak]
+            if len(ds) == 1 and ds[0].kind == "assign" and isinstance(ds[0].value, ast.AST) and ds[0].index is None \
+                    and not [d for d in rd.reaching(expr.id, where) if d.weak]:
+                at = ds[0].node
+                expr = ds[0].value
+                depth -= 1
+                continue
+        except Exception:
+            break
+        break
+    return expr
+
+
+def expand_locals(func_node, expr, depth: int = 4):
+    """a copy of `expr` in which every single-definition local is replaced by its defining expression"""
+    import copy
+    sd = single_defs(func_node)
+
+    class X(ast.NodeTransformer):
+        def __init__(self, d):
+            self.d = d
+
+        def visit_Name(self, n):
+            if isinstance(n.ctx, ast.Load) and n.id in sd and self.d > 0:
+                return X(self.d - 1).visit(copy.deepcopy(sd[n.id]))
+            return n
+
+    return X(depth).visit(copy.deepcopy(expr))
+
+
+def return_values(func_node):
+    """(return statement, value with a single-definition temporary resolved) for every valued return"""
+    from .loader import walk_no_nested
+    out = []
+    for n in walk_no_nested(func_node):
+        if isinstance(n, ast.Return) and n.value is not None:
+            out.append((n, resolve_local(func_node, n.value)))
+    return out
